@@ -109,6 +109,17 @@ Theorem C19_correct_script_reaches_target : forall d tag ps target,
 Proof. exact patch_reaches_target. Qed.
 Print Assumptions C19_correct_script_reaches_target.
 
+(* remote operations: every remote operation that is new to the replica (no node of the tree carries its timestamp:
+   operation identifiers are unique and an operation is delivered once) keeps the structural part of the invariant —
+   the tree well-formed, creation timestamps pairwise distinct — and the root as it was; the snapshot operation puts
+   the initial document in its place.  (That every timestamp in the tree is older than the next LOCAL operation's is the
+   Lamport-clock clause proved for every history in C15.) *)
+Theorem C19_structure_kept_by_remote_operations : forall s o,
+  SInv s -> new_to (opid_ts (op_id o)) (all_cs s) -> canon_op o ->
+  SInv (doc_remote s o) /\ (is_snap o = false -> jtomb (doc_remote s o) = jtomb s).
+Proof. exact doc_remote_keeps_structure. Qed.
+Print Assumptions C19_structure_kept_by_remote_operations.
+
 (* non-vacuity: a fresh replica and a five-operation script meet every premise, and all operations are accepted *)
 Example C19_rfc6902_example :
   let d := d_new [117] in
@@ -143,7 +154,9 @@ Print Assumptions C19_rfc6902_example.
    What is NOT a theorem here:
      - that the script from the external library github.com/wI2L/jsondiff transforms current into target (it is the
        hypothesis of the last theorem; the library is not modelled);
-     - that the invariant survives REMOTE operations (it does in every replayed history: distinct operation identifiers
-       and the Lamport clock give it), and convergence of the other replicas under concurrent operations.
+     - the composition of the two invariant theorems over mixed local/remote histories (structure under remote
+       operations and clock domination for local ones are proved separately, their glue — that delivered operations are
+       new and that the local clock has passed every applied timestamp — is the datatype machinery of C15/C05), and
+       convergence of the other replicas under concurrent operations.
    These parts rest on the correspondence check (every PatchByJSON of the doc slice is replayed on this model:
    operations, identifiers, resulting value) and on the Go oracle that compares the result with the target itself. *)
